@@ -368,7 +368,14 @@ def c15(mon, s):
     cfg = config(s)
     wb, sp, ec = s.wellbores, s.surfaceplant, s.economics
     if s.classes.get('wellbores') != 'WellBores':
-        mon.note('c15-skip-wellbores:' + str(s.classes.get('wellbores')))
+        # sibling wellbore classes (closed-loop): only the sign clause carries over
+        mon.note('c15-sibling-wellbores:' + str(s.classes.get('wellbores')))
+        pump = _arr(wb.PumpingPower.value) if wb.has('PumpingPower') else None
+        if pump is not None and pump.ndim == 1 and len(pump):
+            neg = np.nonzero(pump < 0)[0]
+            mon.check('pumping-nonnegative', len(neg) == 0, mechanism='C15/negative-total-pumping-power',
+                      index=int(neg[0]) if len(neg) else None, value=float(pump[neg[0]]) if len(neg) else None,
+                      wellbores=s.classes.get('wellbores'))
         return
     L = cfg['life']
     steps = int(ec.timestepsperyear.value)
